@@ -47,8 +47,8 @@ ASSUMPTIONS = [
 EXHAUSTIVE = {'quick': False, 'thorough': False}
 EXHAUSTIVE_NOTE = 'stream A is exhaustive over its alphabet up to the stated length; the other streams are sampled'
 MIN_EVENTS = {
-    'quick': {'evaluations': 500000, 'oracle.recover': 100000, 'oracle.eof-completion': 10000, 'oracle.errpos': 1000},
-    'thorough': {'evaluations': 8000000, 'oracle.recover': 1500000, 'oracle.eof-completion': 100000, 'oracle.errpos': 10000},
+    'quick': {'evaluations': 500000, 'oracle.nocomments': 45000, 'oracle.recover': 100000, 'oracle.eof-completion': 10000, 'oracle.errpos': 1000},
+    'thorough': {'evaluations': 8000000, 'oracle.nocomments': 750000, 'oracle.recover': 1500000, 'oracle.eof-completion': 100000, 'oracle.errpos': 10000},
 }
 
 ALPHABET = [
@@ -409,10 +409,56 @@ def stream_errpos(ctx, count):
         check_errpos(ctx, cssutils, parser, text, 'errpos|%s|%d' % (bad, pos))
 
 
+def check_nocomments(ctx, tk, tk_nc, text, fullsheet):
+    """configuration doComments=False: the same tokens without the COMMENT ones; only white space next to a dropped comment may
+    merge (runs of S count as one)"""
+    ctx.count('oracle.nocomments')
+    ctx.count('evaluations')
+    case = {'kind': 'nocomments', 'text': text, 'fullsheet': fullsheet}
+    try:
+        a = list(tk.tokenize(text, fullsheet=fullsheet))
+        b = list(tk_nc.tokenize(text, fullsheet=fullsheet))
+    except Exception as e:
+        ctx.violation('total.exception', case, {'tb': core.short_tb(e)}, site=core.raise_site(e))
+        return
+
+    def squash(toks, drop_comments):
+        out = []
+        for t in toks:
+            if drop_comments and t[0] == 'COMMENT':
+                continue
+            if t[0] == 'S':
+                if out and out[-1][0] == 'S':
+                    continue
+                out.append(('S', ' '))
+            else:
+                out.append((t[0], t[1]))
+        return out
+
+    want, got = squash(a, True), squash(b, False)
+    if want != got:
+        i = next((k for k in range(min(len(want), len(got))) if want[k] != got[k]), min(len(want), len(got)))
+        ctx.violation('nocomments.differs', case, {'at': i, 'with_comments': want[max(0, i - 2) : i + 3], 'doComments_False': got[max(0, i - 2) : i + 3]})
+
+
+def stream_nocomments(ctx, cssutils, tk, count):
+    from cssutils import tokenize2
+
+    tk_nc = tokenize2.Tokenizer(doComments=False)
+    pieces = ['a', ' ', '  ', '\n', ',', ':', ';', '{', '}', '>', '[', ']', '(', ')', '/*c*/', '/**/', '"s"', '1px', '#h', '@m', '+', '~', '.c', 'url(x)', 'f(', '!', '*', '|', '=', '~=', '-->', '<!--', '/*open']
+    for i in range(count):
+        if not ctx.mine(i):
+            continue
+        rng = ctx.rng('nc', i)
+        text = ''.join(rng.choice(pieces) for _ in range(rng.randint(1, 9)))
+        check_nocomments(ctx, tk, tk_nc, text, rng.random() < 0.5)
+
+
 def run_worker(ctx):
     cssutils, _ = core.import_repo()
     tk = _tok(cssutils)
     quick = ctx.tier == 'quick'
+    stream_nocomments(ctx, cssutils, tk, 60000 if quick else 1000000)
     stream_exhaustive(ctx, tk, 3 if quick else 4)
     stream_random(ctx, tk, 300000 if quick else 3000000)
     stream_sequences(ctx, tk, 150000 if quick else 2000000)
@@ -422,6 +468,16 @@ def run_worker(ctx):
 
 
 def replay(ctx, case):
+    if case.get('kind') == 'nocomments':
+        cssutils, _ = core.import_repo()
+        from cssutils import tokenize2
+
+        check_nocomments(ctx, _tok(cssutils), tokenize2.Tokenizer(doComments=False), case['text'], case.get('fullsheet', True))
+        return
+    _replay_text(ctx, case)
+
+
+def _replay_text(ctx, case):
     cssutils, _ = core.import_repo()
     tk = _tok(cssutils)
     if case.get('kind') == 'errpos':
